@@ -2003,9 +2003,12 @@ impl Engine for C14 {
 		}
 	}
 	fn parts(&self, _tier: Tier) -> Vec<(&'static str, usize)> {
-		vec![("pool-mc", 1), ("pool-capacity", 1), ("pool-reorg", 1), ("c13-pool", 1)]
+		vec![("pool-mc", 1), ("pool-capacity", 1), ("pool-reorg", 1), ("c13-pool", 1), ("node-glue", 12)]
 	}
-	fn run_part(&self, part: &str, tier: Tier, _shard: usize, _n: usize) -> Report {
+	fn run_part(&self, part: &str, tier: Tier, shard: usize, n: usize) -> Report {
+		if part == "node-glue" {
+			return node_glue(tier, shard, n);
+		}
 		run_part(
 			match part {
 				"pool-mc" => "pool-mc",
@@ -2036,6 +2039,34 @@ impl Engine for C14 {
 		let mut rep = Report::new();
 		let mut found: Vec<(String, String)> = vec![];
 		let mut obs = vec![];
+		if part == "node-glue" {
+			let u = build_mc(&udir, tier, &sc);
+			let alpha = glue_alphabet(&u, Tier::Thorough);
+			let mut live = Live::root(&u, &sc);
+			let sh = Shadow::open(&u, &sc);
+			for s in &ops {
+				let op = alpha.iter().find(|o| o.show(&u) == *s).ok_or(format!("unknown op {}", s))?;
+				let (out, same) = glue_step(&mut live, &sh, op);
+				obs.push(format!("{} -> {}", s, if !out.enabled { "disabled".to_string() } else if out.ok { "Ok".to_string() } else { out.err.clone() }));
+				if let Err(d) = same {
+					found.push((format!("node-glue:nodes-differ:{}", op.kind()), d));
+					break;
+				}
+			}
+			if found.is_empty() && case["miner"].as_bool() == Some(true) {
+				if let Err((k, w)) = glue_miner(&live, &sh, &sc) {
+					found.push((format!("node-glue:miner:{}", k), w));
+				}
+			}
+			let summary = format!("{} ;; violations: {:?}", obs.join("; "), found.iter().map(|(k, _)| k.clone()).collect::<Vec<_>>());
+			if let Some((_, w)) = found.iter().find(|(k, _)| k == want) {
+				return Err(format!("{} :: {}", w, summary));
+			}
+			if want.is_empty() && !found.is_empty() {
+				return Err(summary);
+			}
+			return Ok(summary);
+		}
 		if part != "c13-pool" {
 			let mut u = build_mc(&udir, tier, &sc);
 			u.cap = part == "pool-capacity";
@@ -2108,4 +2139,317 @@ impl Engine for C14 {
 		}
 		Ok(summary)
 	}
+}
+
+// ---------------------------------------------------------------------------------------------
+// node-glue: the node's own adapters (servers/src/common/adapters.rs) and miner (servers/src/mining/mine_block.rs)
+//
+// A second node is wired exactly as `Server::new` wires it - PoolToChainAdapter as the pool's view of the chain,
+// ChainToPoolAndNetAdapter as the chain's adapter (with a Peers object that has no connected peer, so that the
+// broadcasts go nowhere) - and driven in lock step with the engine's node, whose glue is the specification the
+// other parts check the invariants on. After every operation both nodes must hold the same pools on the same head;
+// in every state the real miner's `build_block` must assemble the pool's mineable set into a block the chain accepts.
+
+use grin_servers::common::adapters::{ChainToPoolAndNetAdapter, PoolToChainAdapter, PoolToNetAdapter};
+
+type RealPool = TransactionPool<PoolToChainAdapter, NoopPoolAdapter>;
+
+struct Shadow {
+	dir: PathBuf,
+	chain: Arc<Chain>,
+	pool: Arc<grin_util::RwLock<RealPool>>,
+	to_chain: Arc<PoolToChainAdapter>,
+	_peers: Arc<grin_p2p::Peers>,
+}
+
+impl Drop for Shadow {
+	fn drop(&mut self) {
+		let _ = std::fs::remove_dir_all(&self.dir);
+	}
+}
+
+impl Shadow {
+	fn open(u: &Uni, sc: &uni::Scratch) -> Shadow {
+		let dir = sc.fresh("sh");
+		uni::copy_dir(&u.base, &dir);
+		let to_chain = Arc::new(PoolToChainAdapter::new());
+		let pool: Arc<grin_util::RwLock<RealPool>> = Arc::new(grin_util::RwLock::new(TransactionPool::new(pool_config(u.mc), to_chain.clone(), Arc::new(NoopPoolAdapter {}))));
+		let adapter = Arc::new(ChainToPoolAndNetAdapter::new(pool.clone(), vec![]));
+		let chain = Arc::new(uni::open_chain_with(&dir, &u.tree.gen, adapter.clone()).unwrap_or_else(|e| panic!("Chain::init on {:?}: {:?}", dir, e)));
+		to_chain.set_chain(chain.clone());
+		let pdir = dir.join("peers");
+		std::fs::create_dir_all(&pdir).expect("peers dir");
+		let store = grin_p2p::store::PeerStore::new(pdir.to_str().unwrap()).expect("peer store");
+		let peers = Arc::new(grin_p2p::Peers::new(store, Arc::new(grin_p2p::DummyAdapter {}), grin_p2p::P2PConfig::default()));
+		adapter.init(peers.clone());
+		Shadow { dir, chain, pool, to_chain, _peers: peers }
+	}
+
+	fn pools(&self) -> (Vec<Hash>, Vec<Hash>, Vec<Hash>) {
+		let p = self.pool.read();
+		let r = (p.txpool.all_transactions().iter().map(|t| t.hash()).collect(), p.stempool.all_transactions().iter().map(|t| t.hash()).collect(), p.reorg_cache.read().iter().map(|e| e.tx.hash()).collect());
+		r
+	}
+}
+
+#[derive(Clone, Copy, Debug, PartialEq)]
+enum Del {
+	None,
+	Sync,
+	Mine,
+}
+impl Del {
+	fn opts(&self) -> Options {
+		match self {
+			Del::None => Options::NONE,
+			Del::Sync => Options::SYNC,
+			Del::Mine => Options::MINE,
+		}
+	}
+}
+
+#[derive(Clone, Debug, PartialEq)]
+enum GOp {
+	Submit(usize, bool),
+	Connect(usize, Del),
+	Fork(Del),
+	ForkHeader,
+	Mine,
+}
+
+impl GOp {
+	fn show(&self, u: &Uni) -> String {
+		match self {
+			GOp::Submit(i, stem) => Op::Submit(*i, *stem).show(u),
+			GOp::Connect(s, d) => format!("connect({},{:?})", CONNECT_SETS[*s].0, d),
+			GOp::Fork(d) => format!("fork-block({:?})", d),
+			GOp::ForkHeader => "fork-header".into(),
+			GOp::Mine => "mine".into(),
+		}
+	}
+	fn kind(&self) -> String {
+		match self {
+			GOp::Submit(_, true) => "submit-stem".into(),
+			GOp::Submit(_, false) => "submit-fluff".into(),
+			GOp::Connect(_, d) => format!("connect-{:?}", d).to_lowercase(),
+			GOp::Fork(d) => format!("fork-block-{:?}", d).to_lowercase(),
+			GOp::ForkHeader => "fork-header".into(),
+			GOp::Mine => "mine".into(),
+		}
+	}
+}
+
+fn glue_alphabet(u: &Uni, tier: Tier) -> Vec<GOp> {
+	let t = |n: &str| u.tx_index(n).unwrap();
+	let mut v = vec![
+		GOp::Submit(t("T1"), false),
+		GOp::Submit(t("T2"), false),
+		GOp::Submit(t("T4"), false),
+		GOp::Submit(t("T4"), true),
+		GOp::Connect(1, Del::None),
+		GOp::Connect(1, Del::Sync),
+		GOp::Connect(0, Del::Sync),
+		GOp::Fork(Del::None),
+		GOp::Fork(Del::Sync),
+		GOp::Mine,
+	];
+	if tier == Tier::Thorough {
+		v.push(GOp::Submit(t("T3"), false));
+		v.push(GOp::Submit(t("T1"), true));
+		v.push(GOp::Connect(2, Del::Mine));
+		v.push(GOp::Connect(3, Del::None));
+		v.push(GOp::ForkHeader);
+	}
+	v
+}
+
+/// one operation on both nodes; Err(text) = the nodes differ
+fn glue_step(live: &mut Live<'_>, sh: &Shadow, op: &GOp) -> (Out, Result<(), String>) {
+	let u = live.u;
+	// the block (if any) is built once, by the engine's node, and handed to both
+	let mut block: Option<(Block, Options)> = None;
+	let out = match op {
+		GOp::Submit(i, stem) => live.apply(&Op::Submit(*i, *stem)),
+		GOp::ForkHeader => live.apply(&Op::ForkHeader),
+		GOp::Connect(s, d) => {
+			let txs: Vec<Transaction> = CONNECT_SETS[*s].1.iter().map(|n| u.txs[u.tx_index(n).unwrap()].tx.clone()).collect();
+			if !live.ref_block_ok(&txs) {
+				return (Out::default(), Ok(()));
+			}
+			let head = live.head_header();
+			let label = format!("c{}", s);
+			match cached_block(u, &head, &label, || assemble_like_miner(&live.chain, &u.kc, &txs, 3000 + (head.height as u32 + 1) * 10 + *s as u32).map(|mut b| {
+				uni::remine(&mut b, &head);
+				b
+			})) {
+				Ok(b) => {
+					block = Some((b.clone(), d.opts()));
+					match live.deliver(&b, d.opts()) {
+						Ok(_) => Out { enabled: true, ok: true, err: String::new() },
+						Err(e) => Out { enabled: true, ok: false, err: e },
+					}
+				}
+				Err(e) => Out { enabled: true, ok: false, err: format!("assemble: {}", e) },
+			}
+		}
+		GOp::Fork(d) => match live.next_fork(true) {
+			None => return (Out::default(), Ok(())),
+			Some(i) => {
+				let b = u.tree.blocks[i].block.clone();
+				block = Some((b.clone(), d.opts()));
+				match live.deliver(&b, d.opts()) {
+					Ok(sts) => Out { enabled: true, ok: true, err: format!("{:?}", sts) },
+					Err(e) => Out { enabled: true, ok: false, err: e },
+				}
+			}
+		},
+		GOp::Mine => {
+			let txs = match live.pool.prepare_mineable_transactions() {
+				Ok(t) if !t.is_empty() => t,
+				_ => return (Out::default(), Ok(())),
+			};
+			match live.mined_block(&txs) {
+				Ok(b) => {
+					block = Some((b.clone(), Options::MINE));
+					match live.deliver(&b, Options::MINE) {
+						Ok(_) => Out { enabled: true, ok: true, err: String::new() },
+						Err(e) => Out { enabled: true, ok: false, err: e },
+					}
+				}
+				Err(e) => Out { enabled: true, ok: false, err: format!("assemble: {}", e) },
+			}
+		}
+	};
+	if !out.enabled {
+		return (out, Ok(()));
+	}
+	// the same on the node wired with the real adapters
+	let sres: Result<(), String> = match op {
+		GOp::Submit(i, stem) => {
+			let header = sh.chain.head_header().expect("head_header");
+			sh.pool.write().add_to_pool(TxSource::Broadcast, u.txs[*i].tx.clone(), *stem, &header).map_err(|e| format!("{:?}", e))
+		}
+		GOp::ForkHeader => {
+			let i = live.u.fork.iter().cloned().find(|i| sh.chain.get_block_header(&u.tree.blocks[*i].block.hash()).is_err());
+			match i {
+				Some(i) => sh.chain.process_block_header(&u.tree.blocks[i].block.header, Options::NONE).map_err(|e| format!("{:?}", e)),
+				None => Ok(()),
+			}
+		}
+		_ => match &block {
+			Some((b, o)) => sh.chain.process_block(b.clone(), *o).map(|_| ()).map_err(|e| format!("{:?}", e)),
+			None => Ok(()),
+		},
+	};
+	let mut diffs = vec![];
+	if sres.is_ok() != out.ok {
+		diffs.push(format!("verdict: engine node {} / node with the real adapters {}", if out.ok { "Ok".to_string() } else { out.err.clone() }, match &sres { Ok(_) => "Ok".to_string(), Err(e) => e.clone() }));
+	}
+	let h1 = live.chain.head().expect("head").last_block_h;
+	let h2 = sh.chain.head().expect("head").last_block_h;
+	if h1 != h2 {
+		diffs.push(format!("head: {} / {}", short(&h1), short(&h2)));
+	}
+	let names = |hs: &Vec<Hash>| hs.iter().map(|h| u.txs.iter().find(|t| t.tx.hash() == *h).map(|t| t.name.clone()).unwrap_or_else(|| short(h))).collect::<Vec<_>>().join(",");
+	let (a, b, c) = sh.pools();
+	let p = &live.pool;
+	let mine: (Vec<Hash>, Vec<Hash>, Vec<Hash>) = (p.txpool.all_transactions().iter().map(|t| t.hash()).collect(), p.stempool.all_transactions().iter().map(|t| t.hash()).collect(), p.reorg_cache.read().iter().map(|e| e.tx.hash()).collect());
+	for (what, x, y) in [("txpool", &mine.0, &a), ("stempool", &mine.1, &b), ("reorg cache", &mine.2, &c)] {
+		if x != y {
+			diffs.push(format!("{}: [{}] / [{}]", what, names(x), names(y)));
+		}
+	}
+	(out, if diffs.is_empty() { Ok(()) } else { Err(diffs.join("; ")) })
+}
+
+/// the real miner on the state of the node with the real adapters
+fn glue_miner(live: &Live<'_>, sh: &Shadow, sc: &uni::Scratch) -> Result<String, (String, String)> {
+	let net = Arc::new(PoolToNetAdapter::new(grin_pool::DandelionConfig::default()));
+	let mut sp: TransactionPool<PoolToChainAdapter, PoolToNetAdapter> = TransactionPool::new(pool_config(live.u.mc), sh.to_chain.clone(), net);
+	{
+		let p = sh.pool.read();
+		sp.txpool.entries = p.txpool.entries.clone();
+		sp.stempool.entries = p.stempool.entries.clone();
+	}
+	let want: BTreeSet<Vec<u8>> = match sp.prepare_mineable_transactions() {
+		Ok(txs) => txs.iter().flat_map(|t| t.kernels().iter().map(|k| k.excess.0.to_vec()).collect::<Vec<_>>()).collect(),
+		Err(_) => BTreeSet::new(),
+	};
+	let server_pool: grin_servers::ServerTxPool = Arc::new(grin_util::RwLock::new(sp));
+	let mut b = grin_servers::verif_export::verif_build_block(&sh.chain, &server_pool).map_err(|e| ("build_block-failed".to_string(), format!("mine_block::build_block on a pool of {} = Err({})", sh.pool.read().txpool.size(), e)))?;
+	let got: BTreeSet<Vec<u8>> = b.kernels().iter().filter(|k| !k.is_coinbase()).map(|k| k.excess.0.to_vec()).collect();
+	if got != want {
+		return Err(("other-set".to_string(), format!("the block built by the miner carries {} transaction kernels, prepare_mineable_transactions offers {}", got.len(), want.len())));
+	}
+	let head = sh.chain.head_header().expect("head_header");
+	uni::remine(&mut b, &head);
+	let w = b.body.weight();
+	if w > MAX_BLOCK_WEIGHT {
+		return Err(("too-heavy".to_string(), format!("the block built by the miner weighs {} (limit {})", w, MAX_BLOCK_WEIGHT)));
+	}
+	let judge = live.fork_chain(sc);
+	match judge.chain.process_block(b.clone(), Options::MINE) {
+		Ok(_) => Ok(format!("miner:{}-kernels", got.len())),
+		Err(e) => Err(("own-block-refused".to_string(), format!("the block built by mine_block::build_block from the pool is refused by the chain: {:?}", e))),
+	}
+}
+
+fn node_glue(tier: Tier, shard: usize, n: usize) -> Report {
+	uni::init_thread();
+	let mut rep = Report::new();
+	let sc = uni::Scratch::new("c14g");
+	let udir = sc.fresh("universe");
+	for d in ["snaps", "seen", "verdicts"] {
+		std::fs::create_dir_all(udir.join(d)).expect("universe dir");
+	}
+	let u = build_mc(&udir, tier, &sc);
+	let alpha = glue_alphabet(&u, tier);
+	let depth: usize = tier.pick(3, 4);
+	if shard == 0 {
+		rep.extra.insert("alphabet".into(), json!(alpha.iter().map(|o| o.show(&u)).collect::<Vec<_>>()));
+		rep.extra.insert("bound_depth".into(), json!(depth));
+	}
+	let a = alpha.len();
+	let total = a.pow(depth as u32);
+	let mut mined: HashSet<String> = HashSet::new();
+	let mut seen_prefix: HashSet<Vec<usize>> = HashSet::new();
+	for code in 0..total {
+		if !crate::par::mine(code as u64, shard, n) {
+			continue;
+		}
+		let seq: Vec<usize> = (0..depth).map(|k| (code / a.pow((depth - 1 - k) as u32)) % a).collect();
+		let mut live = Live::root(&u, &sc);
+		let sh = Shadow::open(&u, &sc);
+		let mut shown: Vec<String> = vec![];
+		for (k, oi) in seq.iter().enumerate() {
+			let op = &alpha[*oi];
+			let (out, same) = glue_step(&mut live, &sh, op);
+			if !out.enabled {
+				rep.outcome(&format!("disabled:{}", op.kind()));
+				break;
+			}
+			shown.push(op.show(&u));
+			let first_visit = seen_prefix.insert(seq[..=k].to_vec());
+			if first_visit {
+				rep.transitions += 1;
+				rep.evaluations += 1;
+				rep.outcome(&format!("{}:{}", op.kind(), if out.ok { "ok".to_string() } else { err_class(&out.err) }));
+			}
+			if let Err(d) = same {
+				rep.violation(format!("node-glue:nodes-differ:{}", op.kind()), format!("after {:?} the node wired with ChainToPoolAndNetAdapter / PoolToChainAdapter differs from the engine's node (engine / real): {}", shown, d), json!({"part": "node-glue", "tier": tier.name(), "ops": shown.clone()}));
+				break;
+			}
+			let key = live.key();
+			if mined.insert(key.clone()) {
+				rep.states += 1;
+				rep.distinct += 1;
+				rep.state_keys.insert(hash64(&key));
+				match glue_miner(&live, &sh, &sc) {
+					Ok(c) => rep.outcome(&c),
+					Err((k, w)) => rep.violation(format!("node-glue:miner:{}", k), format!("after {:?}: {}", shown, w), json!({"part": "node-glue", "tier": tier.name(), "ops": shown.clone(), "miner": true})),
+				}
+			}
+		}
+	}
+	rep
 }
